@@ -99,6 +99,57 @@ def config_run(item):
     return name, threads, fpg, rc, normalise(msg)
 
 
+OVERFLOW_OBJS = [
+    ("m.o", ".globl _start\n.text\n_start: call f1\n call f2\n ret\n"),
+    ("o1.o", '.section .text.f1,"ax",@progbits\n.globl f1\nf1: movl $big, %eax\n ret\n'),
+    ("o2.o", '.section .text.f2,"ax",@progbits\n.globl f2\nf2: movl $big, %ebx\n ret\n'),
+]
+
+
+def iteration_orders(chk, base):
+    """Errors raised inside `par_iter().try_for_each` (here: the per-group write loop). Which
+    failing iteration is reported depends on which fails before the others start. Enumerate every
+    choice of "this iteration goes first" with the iteration-order seam (real subprocesses)."""
+    d = os.path.join(base, "in_overflow2")
+    objs = graph_program(OVERFLOW_OBJS, d)
+    argv = ["--no-fork", "--threads=8", *objs, "--defsym=big=0x100000000", "-o",
+            os.path.join(d, "out")]
+    env = {"WILD_FILES_PER_GROUP": "1", "WILD_VERIF_TRACE": os.path.join(d, "trace")}
+    # Learn the iteration keys from a variant of the same link that succeeds (a failing run
+    # short-circuits, so not every iteration starts).
+    ok_argv = [a.replace("big=0x100000000", "big=0x1000") for a in argv]
+    rc, so, se = wildrun.link_subprocess(ok_argv, cwd=d, env=env)
+    if rc != 0:
+        chk.machinery(f"overflow2 discovery link failed: {se[-300:]}")
+    rc, so, se = wildrun.link_subprocess(argv, cwd=d, env={"WILD_FILES_PER_GROUP": "1"})
+    if rc == 0:
+        chk.machinery("overflow2 harness linked successfully; expected two relocation overflows")
+    keys = []
+    for line in open(os.path.join(d, "trace")):
+        parts = line.split()
+        if parts[:2] == ["E", "iter"]:
+            keys.append(parts[3])
+    if len(keys) < 3:
+        chk.machinery(f"iteration seam: expected >= 3 write-group iterations, saw {keys}")
+    outcomes = {}
+    for k in keys:
+        e = {"WILD_FILES_PER_GROUP": "1", "WILD_VERIF_ITER": f"write-group:{k}"}
+        rc, so, se = wildrun.link_subprocess(argv, cwd=d, env=e)
+        if rc == 94:
+            chk.machinery(f"iteration seam: designated iteration {k} never ran")
+        err, warn = normalise(se.decode("utf-8", "replace"))
+        outcomes.setdefault((rc, err.split("\n")[0]), []).append(k)
+    if len(outcomes) > 1:
+        chk.violation("overflow2:iteration-order:write-group",
+                      "the reported error depends on which group's write iteration fails first: "
+                      + "; ".join(f"{o[1]!r} when one of {ks[:2]} goes first"
+                                  for o, ks in outcomes.items()),
+                      {"objects": OVERFLOW_OBJS, "argv": argv,
+                       "env_per_run": "WILD_FILES_PER_GROUP=1 WILD_VERIF_ITER=write-group:<key>",
+                       "outcomes": {str(o): ks for o, ks in outcomes.items()}})
+    return len(keys), len(outcomes)
+
+
 def main():
     chk = vlib.Check("C26", "model_checking")
     if not chk.args.no_build:
@@ -157,16 +208,19 @@ def main():
                 chk.violation(f"{name}:config-dependent-diagnostic", str(desc)[:1500],
                               {"harness": name, "outcomes": desc, "objects": H[name]["objs"]})
         nconfigs = len(items)
+        n_iter, n_iter_outcomes = iteration_orders(chk, base)
     chk.coverage = {
         "states": tot["states"], "transitions": tot["transitions"],
         "traces_validated_against_impl": tot["executions"], "executions": tot["executions"],
         "configurations_run": nconfigs, "per_harness": per, "samples": samples,
+        "iteration_orders_run": n_iter, "iteration_order_distinct_outcomes": n_iter_outcomes,
         "exhaustive": all(p["capped"] is None for p in per.values()),
         "explanation": "schedules: every execution is the real wild under the controlled "
                        "scheduler (deviation bound as stated); configurations: threads "
                        "{1,2,4,8,16} x WILD_FILES_PER_GROUP {unset,1}, one free-running run each",
-        "not_covered": "errors raised in par_iter-only phases (section resolution, size "
-                       "finalisation, writing) are compared across configurations only",
+        "not_covered": "errors raised in par_iter-only phases other than the per-group write "
+                       "loop (section resolution, size finalisation, input verification) are "
+                       "compared across configurations only",
     }
     chk.assumptions = ["sequentially consistent interleavings only"]
     chk.finish()
